@@ -106,6 +106,7 @@ func newWorld(t *testing.T) *world {
 	}
 	w.coinErc20 = r1.FuntokenMapping.Erc20Addr.Address
 	// ERC20-born FunToken
+	embeds.SmartContract_ERC20Minter.MustLoad()
 	dr, err := evmtest.DeployContract(deps, embeds.SmartContract_ERC20Minter, "Hostile", "HST", uint8(18))
 	if err != nil {
 		t.Fatalf("deploy erc20: %v", err)
@@ -192,6 +193,8 @@ type frameTracer struct {
 	stack  []*frame
 }
 
+func (ft *frameTracer) CaptureTxStart(gasLimit uint64) {}
+func (ft *frameTracer) CaptureTxEnd(restGas uint64)    {}
 func (ft *frameTracer) CaptureStart(env *vm.EVM, from, to gethcommon.Address, create bool, input []byte, gas uint64, value *big.Int) {
 }
 func (ft *frameTracer) CaptureState(pc uint64, op vm.OpCode, gas, cost uint64, scope *vm.ScopeContext, rData []byte, depth int, err error) {
